@@ -6,7 +6,7 @@ dependency, target dir and output root rewritten to the lane) under /tmp/lane<k>
 /repo itself is never touched. Results go into seeded/<name>/meta.json exactly like
 tools/rerun_seeds.py. Nothing registered in MANIFEST.json depends on this script.
 
-usage: rerun_seeds_parallel.py [-j N] [names...]
+usage: rerun_seeds_parallel.py [-j N] [--benign] [names...]   (--benign: all twenty quick checks on every stored behaviour-preserving change)
 """
 import json, os, subprocess, sys, glob, re, threading, queue
 
@@ -64,10 +64,14 @@ def work(k, q, lock):
             return
         name = os.path.basename(d)
         meta = json.load(open(f"{d}/meta.json"))
+        benign = "/benign/" in d
         pid = name.split("-")[0]
         if not (pid.startswith("C") and pid[1:].isdigit()):
             pid = str(meta.get("property", "")).strip()[:3]
-        checks = [pid] + [c for c in meta.get("checks", {}) if c != pid]
+        if benign:
+            checks = [f"C{i:02d}" for i in range(1, 21)]
+        else:
+            checks = [pid] + [c for c in meta.get("checks", {}) if c != pid]
         sh(f"git -C {lane}/repo checkout -q -- .")
         rc, out = sh(f"git -C {lane}/repo apply {d}/patch.diff")
         if rc != 0:
@@ -81,10 +85,16 @@ def work(k, q, lock):
             res[c] = {"exit": rc, "first": cls[0][:300] if cls else ("" if rc == 0 else out[-200:])}
         sh(f"git -C {lane}/repo checkout -q -- .")
         meta["checks"] = res
-        meta["detected_by"] = [c for c, v in res.items() if v["exit"] == 1]
+        if benign:
+            meta["alarms"] = [c for c, v in res.items() if v["exit"] != 0]
+        else:
+            meta["detected_by"] = [c for c, v in res.items() if v["exit"] == 1]
         json.dump(meta, open(f"{d}/meta.json", "w"), indent=1)
         with lock:
-            print(name, "detected by", meta["detected_by"], [c for c, v in res.items() if v["exit"] == 2], flush=True)
+            if benign:
+                print(name, "alarms", meta["alarms"], flush=True)
+            else:
+                print(name, "detected by", meta["detected_by"], [c for c, v in res.items() if v["exit"] == 2], flush=True)
 
 def main():
     args = sys.argv[1:]
@@ -92,6 +102,8 @@ def main():
     if args[:1] == ["-j"]:
         n = int(args[1]); args = args[2:]
     dirs = sorted(glob.glob("/verif/seeded/*-*"))
+    if args[:1] == ["--benign"]:
+        dirs = sorted(glob.glob("/verif/benign/*-*")); args = args[1:]
     if args:
         dirs = [d for d in dirs if os.path.basename(d) in args]
     q = queue.Queue()
